@@ -116,8 +116,8 @@ def snapshot(fs, ft):
     import sys
     return {
         'gc.threshold': gc.get_threshold(), 'gc.debug': gc.get_debug(),
-        'traceback.format_exception': traceback.format_exception is _ORIG_FMT,
-        'traceback.print_exception': traceback.print_exception is _ORIG_PRINT,
+        'traceback.format_exception': getattr(traceback.format_exception, '__name__', '?') + '@' + getattr(traceback.format_exception, '__module__', '?'),
+        'traceback.print_exception': getattr(traceback.print_exception, '__name__', '?') + '@' + getattr(traceback.print_exception, '__module__', '?'),
         'trace hook': fs.current is None, 'thread trace hook': ft.current is None,
         'sys.settrace binding': fs.settrace == fs._settrace,
         'profilers enabled': sum(p.enabled for p in FakeProfiler.instances),
@@ -126,10 +126,18 @@ def snapshot(fs, ft):
     }
 
 
-def state(ngc, G, cov, prof, buf, x, D, warn, end, pos):
+def _foreign_format(*a, **k):
+    return ['foreign formatter\n']
+
+
+def _foreign_print(*a, **k):
+    pass
+
+
+def state(ngc, G, cov, prof, buf, x, D, warn, end, pos, foreign=False):
     global LAST
     ngc = ci(ngc, 0, 3)
-    G, cov, prof, buf, x, D = map(cb, (G, cov, prof, buf, x, D))
+    G, cov, prof, buf, x, D, foreign = map(cb, (G, cov, prof, buf, x, D, foreign))
     warn = pick(WARN, warn)
     end = pick(ENDS, end)
     pos = ci(pos, 0, 1)
@@ -151,6 +159,9 @@ def state(ngc, G, cov, prof, buf, x, D, warn, end, pos):
     with untraced():
         fs, ft = install_fakes()
         baseline()
+        if foreign:        # the embedding program installed its own traceback formatting before the run
+            traceback.format_exception = _foreign_format
+            traceback.print_exception = _foreign_print
         calls = [0]
 
         def boom_at(which, exc):
@@ -207,7 +218,7 @@ def state(ngc, G, cov, prof, buf, x, D, warn, end, pos):
                                                           '; '.join('%s %r -> %r' % (k, before[k], after[k]) for k in diff))
         started = any(e[1] == 'test' for e in W.TRACE)
         baseline()
-    LAST = (tuple(argv), warn, end, pos, raised, why, started, tuple(fs.trace_calls), tuple(tuple(p.events) for p in FakeProfiler.instances))
+    LAST = (tuple(argv), warn, end, pos, raised, why, started, tuple(fs.trace_calls), tuple(tuple(p.events) for p in FakeProfiler.instances), foreign)
     return why is None
 
 
@@ -216,15 +227,15 @@ def state_reach(*a):
     return LAST[5] is None and LAST[4] == 'KeyboardInterrupt' and len(LAST[7]) == 2 and LAST[8] and LAST[8][0][:1] == ('enable',)
 
 
-_P = [('ngc', 'int'), ('G', 'bool'), ('cov', 'bool'), ('prof', 'bool'), ('buf', 'bool'), ('x', 'bool'), ('D', 'bool'), ('warn', 'int'), ('end', 'int'), ('pos', 'int')]
+_P = [('ngc', 'int'), ('G', 'bool'), ('cov', 'bool'), ('prof', 'bool'), ('buf', 'bool'), ('x', 'bool'), ('D', 'bool'), ('warn', 'int'), ('end', 'int'), ('pos', 'int'), ('foreign', 'bool')]
 _C = ', '.join(n for n, _ in _P)
 _B = '0 <= ngc <= 3 and 0 <= warn < %d and 0 <= end < %d and 0 <= pos <= 1 and (not D or end != 1)' % (len(WARN), len(ENDS))
-_Q = _B + ' and warn <= 2 and (G + cov + prof + buf + x + D <= 2)'
+_Q = _B + ' and warn <= 2 and (G + cov + prof + buf + x + D <= 2) and (not foreign or (warn == 0 and ngc == 0 and G + cov + prof + buf + x + D <= 1))'
 _T = _B
 
 
 def _v(**kw):
-    v = dict(ngc=1, G=True, cov=True, prof=True, buf=True, x=False, D=False, warn=0, end=0, pos=0)
+    v = dict(ngc=1, G=True, cov=True, prof=True, buf=True, x=False, D=False, warn=0, end=0, pos=0, foreign=False)
     v.update(kw)
     return v
 
@@ -250,6 +261,6 @@ SPEC = {
          'reach': 'state_reach', 'reach_bounds': {'quick': _B + ' and end == 4 and ngc == 1 and G and cov and prof and not D and warn == 0',
                                                   'thorough': _B + ' and end == 4 and ngc == 1 and G and cov and prof and not D and warn == 0'},
          'timeout': {'quick': 400, 'thorough': 1700},
-         'fidelity': [_v(), _v(end=4, pos=1), _v(end=2, D=True, ngc=3, warn=1), _v(end=3, x=True, warn=3, cov=False), _v(end=5, buf=False, prof=False)]},
+         'fidelity': [_v(), _v(end=4, pos=1), _v(end=2, D=True, ngc=3, warn=1), _v(end=3, x=True, warn=3, cov=False), _v(end=5, buf=False, prof=False), _v(foreign=True, end=1), _v(foreign=True, end=4, pos=1)]},
     ],
 }
